@@ -129,6 +129,27 @@ def sized_lie_cases(first_id, limits):
     return out
 
 
+def big_payload_cases(first_id, limits):
+    """bytes / string / fixed / decimal payloads whose DECLARED length (70 000, 300 000) is above any internal chunk size
+    but within the allocation limit, while the input ends inside the payload: must be an error, never a shortened value.
+    Inputs only; TLA+ judges."""
+    rec = lambda name, t: {"k": "record", "name": name, "fields": [{"name": "a", "type": {"k": "int"}}, {"name": "p", "type": t}]}
+    out = []
+    for n in (70000, 300000):
+        if not any(l >= 4 * n for l in limits):
+            continue
+        lim = min(l for l in limits if l >= 4 * n)
+        fx = {"k": "fixed", "name": f"Big{n}", "size": n}
+        for present in (0, 1, 100, 66000):
+            body = [7] * min(present, n - 1)
+            for schema, prefix in (({"k": "bytes"}, _zz(n)), ({"k": "string"}, _zz(n)), (fx, []),
+                                   (rec(f"RB{n}", {"k": "bytes"}), [2] + _zz(n)), (rec(f"RF{n}", fx), [2]),
+                                   ({"k": "array", "items": {"k": "string"}}, [2] + _zz(n))):
+                out.append({"id": first_id + len(out), "entry": "datum", "s": schema, "bytes": prefix + body,
+                            "origin": f"bigpayload-{n}-{present}", "only_limit": lim})
+    return out
+
+
 def run(prop, tier, seed, replay=None):
     rep = vf.Report(prop, tier, seed)
     vf.build_harness()
@@ -180,6 +201,7 @@ def run(prop, tier, seed, replay=None):
             rec = {"k": "record", "name": "R", "fields": [{"name": "r", "type": {"k": "ref", "name": "R"}}]}
             cases.append({"id": len(cases), "entry": "datum", "s": rec, "bytes": [], "origin": "uninhabited"})
         limits = [4096, 1 << 20] if tier == "quick" else [4096, 65536, 1 << 20, 512 << 20]
+        cases += big_payload_cases(len(cases), limits)
         if prop == "C05":
             # limit-aware hostile inputs: many blocks that are each below the limit but add up far beyond it
             cases += multiblock_cases(len(cases), limits)
